@@ -1,6 +1,6 @@
 // Correspondence harness: drives the real oxy middlewares (built from /repo's working tree)
 // with generated or replayed histories, records projected observables, runs the property monitors.
-package main
+package hlib
 
 import (
 	"bufio"
@@ -44,8 +44,6 @@ type Component interface {
 	Nontrivial(h *History) string
 }
 
-var components = map[string]func() Component{}
-
 // Stats collected over a run, printed into the report.
 type Stats struct {
 	Counts map[string]int64 `json:"counts"`
@@ -53,7 +51,8 @@ type Stats struct {
 
 var stats = Stats{Counts: map[string]int64{}}
 
-func count(key string, n int64) { stats.Counts[key] += n }
+// Count adds n to a named statistic of the run (input distribution, printed into the evidence).
+func Count(key string, n int64) { stats.Counts[key] += n }
 
 func (h *History) Line() string {
 	var b strings.Builder
@@ -161,12 +160,8 @@ type Report struct {
 	MonSamples []interface{}    `json:"mon_samples"`
 }
 
-func main() {
-	if len(os.Args) < 2 {
-		fmt.Fprintln(os.Stderr, "usage: harness <component> [flags]")
-		os.Exit(2)
-	}
-	name := os.Args[1]
+// Main is the entry point of every component binary: harness/<name>/main.go calls hlib.Main("<name>", comp).
+func Main(name string, comp Component) {
 	fs := flag.NewFlagSet(name, flag.ExitOnError)
 	seed := fs.Int64("seed", 1, "PRNG seed (VERIF_SEED)")
 	n := fs.Int("n", 100, "number of generated histories")
@@ -176,14 +171,7 @@ func main() {
 	report := fs.String("report", "", "report output file (json)")
 	replay := fs.String("replay", "", "replay the histories of this trace file instead of generating")
 	start := fs.Int("start", 0, "first history index (sharding)")
-	_ = fs.Parse(os.Args[2:])
-
-	mk, ok := components[name]
-	if !ok {
-		fmt.Fprintln(os.Stderr, "unknown component", name)
-		os.Exit(2)
-	}
-	comp := mk()
+	_ = fs.Parse(os.Args[1:])
 
 	var hs []History
 	if *replay != "" {
@@ -271,9 +259,11 @@ func main() {
 }
 
 // small helpers shared by the components
-func pick(rng *rand.Rand, xs ...int64) int64 { return xs[rng.Intn(len(xs))] }
+// Pick returns one of xs uniformly.
+func Pick(rng *rand.Rand, xs ...int64) int64 { return xs[rng.Intn(len(xs))] }
 
-func b2i(b bool) int64 {
+// B2i converts a bool to 0/1.
+func B2i(b bool) int64 {
 	if b {
 		return 1
 	}
